@@ -74,6 +74,21 @@ def run(ck):
             pens = [gen.fbits(rng.choice([0.0, 0.5, 2.0, 5.5, 8.0, 30.0])) if rng.chance(1, 2) else gen.NG for _ in range(3)]
         cases.append({'kind': kind, 'seqs': seqs, 'type': rng.choice(TYPES[kind]), 'pens': pens, 'threads': rng.choice([1, 1, 1, 4])})
         ck.count('kernel:mixed family ' + fam)
+    # the parallel runner recursing into itself: both sequences beyond 1000 residues (the upper-left sub-problem of the first split
+    # still has >= 500 rows), an indel next to the middle row (transitions 5/6/7 there) and a terminal overhang
+    for k in range(1 if quick else 6):
+        kind = 'protein' if k % 2 == 0 else 'dna'
+        alpha = gen.PROT if kind == 'protein' else gen.DNA
+        n = rng.choice([1040, 1088, 1100])
+        core = gen.rand_seq(rng, alpha, n)
+        ins = gen.rand_seq(rng, alpha, rng.range(8, 11))
+        at = n // 2 - rng.range(0, 3)            # the middle row of x (the shorter sequence: the rows) lies inside the insertion
+        x = core[:at] + ins + core[at:]
+        over = gen.rand_seq(rng, alpha, rng.range(12, 16))
+        y = (core + over) if k % 3 != 2 else (over + core)
+        seqs = [x, y] if k % 2 == 0 else [y, x]
+        cases.append({'kind': kind, 'seqs': seqs, 'type': 5, 'pens': [gen.NG] * 3, 'threads': rng.choice([1, 4])})
+        ck.count('kernel:seqseq, both sequences > 1000 residues (nested parallel runner), indel at the middle row, terminal overhang')
     if not quick:
         for L in (495, 501, 520):
             a = gen.rand_seq(rng, gen.DNA, L); b = gen.mutate(rng, a, gen.DNA, 5, 3)
